@@ -115,6 +115,15 @@ Definition walks (s : read_site) : bool := negb (String.eqb (rs_walk s) "none").
 Definition site_lookup_ok (s : read_site) : bool :=
   implb (value_site s && negb (spec_noninherited (rs_attr s))) (walks s).
 
+(* the converse: a property the specification does NOT inherit is read from the element itself (rs_walk = none) - reading it with
+   find_attribute / from an ancestor would apply an ancestor's value (overflow, opacity, filter, flood-*, ...).  Exceptions, as
+   usvg's text layout resolves them: the baseline properties of a text chunk are taken from the span's element or its parent
+   (find_attribute's non-inheritable branch) and baseline-shift is accumulated along the ancestors. *)
+Definition text_baseline_prop (a : AId) : bool :=
+  match a with A_DominantBaseline | A_AlignmentBaseline | A_BaselineShift => true | _ => false end.
+Definition site_own_ok (s : read_site) : bool :=
+  implb (value_site s && spec_noninherited (rs_attr s) && negb (text_baseline_prop (rs_attr s))) (negb (walks s)).
+
 (* ---- units: a <length> is converted by units::convert_length (source-derived arms: Gen.Units.convert_abs) - through one of
    the helpers anchored by the generator, in the same function (baseline-shift), or by resolve_font_size's own copy of
    the table (font-size; Gen.SvgTables fs_Px .. fs_Percent) ---- *)
@@ -132,7 +141,7 @@ Definition site_length_ok (s : read_site) : bool := site_length_ok_in read_sites
 Fixpoint bad_sites_from (i : N) (l : list read_site) : list N :=
   match l with
   | [] => []
-  | s :: l' => if site_ok s && site_lookup_ok s && site_length_ok s then bad_sites_from (i + 1)%N l'
+  | s :: l' => if site_ok s && site_lookup_ok s && site_own_ok s && site_length_ok s then bad_sites_from (i + 1)%N l'
                else i :: bad_sites_from (i + 1)%N l'
   end.
 Definition bad_sites : list N := bad_sites_from 0%N read_sites.
